@@ -26,12 +26,16 @@ def cli_state(s, i, tmpdir):
     docs = [ro_txt]
     for k in range(rng.randint(1, 6)):
         docs.append(gen.rand_message(rng, state, K.weighted_kinds(rng, K.kind_weights(1, 1, 1.0, 0)), 10 + k, ids, pool=pool))
-    rc, reread, lib, argv = K.cli_roundtrip(s, docs, tmpdir, 'c14-%d' % i)
+    judge_cli(s, docs, tmpdir, 'c14-%d' % i, 'cr' if i % 2 else 'hostile')
+
+
+def judge_cli(s, docs, tmpdir, tag, label):
+    rc, reread, lib, argv = K.cli_roundtrip(s, docs, tmpdir, tag)
     s.evaluations += 1
-    s.note_sig(('cli-roundtrip', 'cr' if i % 2 else 'hostile', type(reread).__name__, rc))
+    s.note_sig(('cli-roundtrip', label, type(reread).__name__, rc))
     if lib is None:
         return
-    wit = {'type': 'collection', 'docs': docs, 'strict': False}
+    wit = {'type': 'cli-roundtrip', 'docs': docs}
     if isinstance(reread, Exception) or type(reread).__name__ != 'RunningOrder':
         s.custom_violation('state-written-by-cli-does-not-read-back', {'got': type(reread).__name__,
                                                                        'msg': str(reread)[:150]}, wit, status='cli')
@@ -80,7 +84,18 @@ def run(s):
             ro, err, v, ev = s.step(ro, m_, {'two-ends': h})
 
 
-replay = K.replay_transition
+def replay(s, data):
+    w = data['witness']
+    if w.get('type') == 'cli-roundtrip':
+        import shutil
+        import tempfile
+        tmpdir = tempfile.mkdtemp(prefix='verif-c14-')
+        try:
+            judge_cli(s, w['docs'], tmpdir, 'replay', 'replay')
+        finally:
+            shutil.rmtree(tmpdir, ignore_errors=True)
+        return
+    K.replay_transition(s, data)
 
 
 def gates(agg, tier):
